@@ -12,7 +12,7 @@ repaired in /repo it retries every 100 ms while an exclusive command holds the s
 
 * the signal is never dropped: dispatched at once when the slot is free, otherwise one 100 ms
   timer whose firing runs `sigQuit` again;
-* an accepted quit sets `stopping`, which then holds for ever: no respawn during/after shutdown;
+* an accepted quit sets `stopping`; only the failure path of an arbiter restart clears it (fix 273f512); no respawn during/after shutdown;
 * `Arbiter.stop` targets every registered watcher (a permutation of all of them, each started);
 * when the stop future completes the loop is stopped and `stepTail` closes the control and the
   PUB socket; closed stays closed; nothing is published / replied on a closed socket;
@@ -85,16 +85,67 @@ theorem C08_sigquit_resume_queues_callback (rec : Rec) (v : Val) (n : String) (s
     free (`C08_sigquit_dispatches_when_free`). -/
 theorem C08_sigquit_callback_retries (rec : Rec) (n : String) : runReady1 rec (.callback n) = sigQuit := rfl
 
-/-! ### 2. `stopping` is set by an accepted quit and holds for ever -/
+/-! ### 2. `stopping` is set by an accepted quit; what can clear it -/
 
-theorem stoppingStable : ArbStable (fun a => a.stopping = true) :=
-  ⟨⟨fun _ _ => rfl, fun _ _ => rfl, fun _ _ h => h, fun _ _ h => h, fun _ _ h => h, fun _ _ _ h => h, fun _ _ h => h⟩, fun _ h => h⟩
+/-- every write the model makes to the arbiter record keeps `stopping` set — except the one of the failed arbiter
+    restart (`clearRestarting`, fix 273f512), which is not in this list -/
+theorem stopping_kept_by_writes (a : Arbiter) (h : a.stopping = true) :
+    { a with stopping := true }.stopping = true ∧ { a with restarting := true, stopping := true }.stopping = true ∧
+    (∀ b, { a with loopStop := b }.stopping = true) ∧ (∀ b, { a with socketEvent := b }.stopping = true) ∧
+    (∀ b, { a with sockReady := b }.stopping = true) ∧ (∀ ns ws, { a with names := ns, watchers := ws }.stopping = true) ∧
+    (∀ v, { a with slot := v }.stopping = true) ∧ { a with ctlClosed := true, pubClosed := true }.stopping = true :=
+  ⟨rfl, rfl, fun _ => h, fun _ => h, fun _ => h, fun _ _ => h, fun _ => h, h⟩
 
-/-- **`stopping` is for ever**: once set it is never cleared, whatever happens afterwards — requests,
-    signals, timers, deaths (only `setStopping` / `setRestarting` write it, and only to true). -/
-theorem C08_stopping_is_forever (s : State) (ops : List Op) (h : s.a.stopping = true) :
-    (run s ops).a.stopping = true :=
-  run_pres (Spec.ofLeafX (arbPLeafX _ stoppingStable)) s ops h
+theorem restartingStoppingStable : ArbStable (fun a => a.restarting = true → a.stopping = true) :=
+  ⟨⟨fun _ _ _ => rfl, fun _ _ _ => rfl, fun _ _ h => by simp at h, fun _ _ h => h, fun _ _ h => h, fun _ _ h => h,
+    fun _ _ _ h => h, fun _ _ h => h⟩, fun _ h => h⟩
+
+/-- **while the arbiter is restarting it is stopping**: `_restarting` is never set without `_stopping`, along every
+    run — `Arbiter.restart` sets both, and since fix 273f512 its failure path clears both. -/
+theorem C08_restarting_implies_stopping (s : State) (ops : List Op) (h : s.a.restarting = true → s.a.stopping = true) :
+    (run s ops).a.restarting = true → (run s ops).a.stopping = true :=
+  run_pres (Spec.ofLeafX (arbPLeafX _ restartingStoppingStable)) s ops h
+
+example : (initState [{ name := "a" }] [{}] 0).a.restarting = true → (initState [{ name := "a" }] [{}] 0).a.stopping = true := by
+  decide +kernel
+
+/- FULL STATEMENT (no longer true of the code since fix 273f512, was `C08_stopping_is_forever`):
+     ∀ (s : State) (ops : List Op), s.a.stopping = true → (run s ops).a.stopping = true
+   Since 273f512 the `except Exception:` of `Arbiter.restart(inside_circusd=True)` sets `_stopping = False` (and
+   `_restarting = False`) when the stop of the watchers fails — also when `_stopping` had been set earlier by a `quit`
+   whose own stop had failed (`util.synchronized` accepts a `restart` while `_stopping` is set and the slot is free).
+   What is proved: -/
+/-- a watcher whose worker the daemon may not signal, started -/
+def c08fS : State := run (initState [{ name := "alpha" }] [{ eperm := true }] 0) [.start, .wake, .wake]
+def c08fReq (cmd : String) : Op := .req "c" (some (.obj [("command", .str cmd), ("id", .str "q"), ("properties", .obj [])]))
+
+/-- **counter-example to "`stopping` is for ever" (consequence of fix 273f512, by evaluation)**: a `quit` that fails (the
+    worker cannot be signalled) leaves `_stopping` set with the slot free; a `restart` of the arbiter is then accepted,
+    fails for the same reason, and its `except` clears `_stopping`: the flag set by the quit is gone. -/
+theorem C08_counterexample_stopping_cleared_by_failed_restart :
+    (run c08fS [c08fReq "quit"]).a.stopping = true ∧ (run c08fS [c08fReq "quit"]).a.slot = none ∧
+    (run c08fS [c08fReq "quit", c08fReq "restart"]).a.stopping = false ∧
+    (run c08fS [c08fReq "quit", c08fReq "restart"]).a.restarting = false := by
+  decide +kernel
+
+/-- **`stopping` is cleared by one statement only** (partial: the run-level statement "once set by a quit it stays
+    set unless an arbiter restart fails afterwards" needs the invariant that a `restartInsideAfterStop` frame exists
+    only while the slot is held by `arbiter_restart`, which is not proved): the only definition of the model that
+    writes `stopping := false` is `clearRestarting`, and the only place that runs it is the continuation of
+    `Arbiter.restart(inside_circusd=True)` when the stop of the watchers ended with an exception; every other
+    continuation, on every value, and every other write to the arbiter record (`stopping_kept_by_writes`) leaves the
+    flag alone; `manage_watchers` and a signal-initiated reload do nothing while it is set. -/
+theorem C08_stopping_is_forever_partial (rec : Rec) (wt : Waiter) (s : State) :
+    (∀ e, runResume rec .restartInsideAfterStop (.exc e) wt s =
+        deliver rec wt (.exc e) { s with a := { s.a with restarting := false, stopping := false } }) ∧
+    (∀ v, (∀ e, v ≠ .exc e) → runResume rec .restartInsideAfterStop v wt s = arbStopTail rec wt s) ∧
+    (∀ k e, k ≠ .restartInsideAfterStop → k ≠ .pass → (∀ n r, k ≠ .multi n r) → (∀ f i, k ≠ .multiSlot f i) →
+        runResume rec k (.exc e) wt s = deliver rec wt (.exc e) s) := by
+  refine ⟨fun _ => rfl, ?_, ?_⟩
+  · intro v hv
+    cases v <;> first | rfl | exact absurd rfl (hv _)
+  · intro k e h1 h2 h3 h4
+    cases k <;> first | rfl | exact absurd rfl h1 | exact absurd rfl h2 | exact absurd rfl (h3 _ _) | exact absurd rfl (h4 _ _)
 
 theorem ve_quit (props : JVal) : validateExecute "quit" props = (do
     let t ← syncCoroutine "arbiter_stop" .arbStop []
@@ -115,28 +166,34 @@ theorem quit_accepted (props : JVal) (s : State) (h1 : s.a.slot = none) (h2 : s.
   erw [if_neg (by simp [h2]), if_neg (by simp [h1])]
   rfl
 
-/-- **an accepted quit sets `stopping`** (slot free, not restarting, daemon not hung): when
-    `validateExecute "quit"` returns, `Arbiter.stop` has already marked the arbiter as stopping. -/
-theorem C08_quit_sets_stopping (props : JVal) (s : State) (h1 : s.a.slot = none) (h2 : s.a.restarting = false)
+/- FULL STATEMENT (was `C08_quit_sets_stopping`, proved until fix 273f512 from "no write clears `stopping`"):
+     (∃ tid, (validateExecute "quit" props s).1 = .ok (.future tid "")) ∧ (validateExecute "quit" props s).2.a.stopping = true
+   for every state `s` with a free slot, not restarting, not hung. -/
+/-- **an accepted quit sets `stopping` before anything else** (slot free, not restarting, daemon not hung): the request
+    gets a future, and the state in which `Arbiter.stop` starts to stop the watchers (its one `yield`, over the
+    watchers `ws` in stop order) has `stopping` set.  Partial: that the flag is still set when `validateExecute`
+    returns needs, since fix 273f512, the invariant that no frame of a failed-restart handler
+    (`restartInsideAfterStop`) can be resumed while the slot is free (`C08_stopping_is_forever_partial`); at run level
+    `C08_quit_terminates_stubborn` / `C08_quit_terminates_obedient` (Props/C08Run.lean) do have `stopping` set at the end. -/
+theorem C08_quit_sets_stopping_partial (props : JVal) (s : State) (h1 : s.a.slot = none) (h2 : s.a.restarting = false)
     (hb : s.blocked = false) :
     (∃ tid, (validateExecute "quit" props s).1 = .ok (.future tid "")) ∧
-    (validateExecute "quit" props s).2.a.stopping = true := by
+    ∃ ws s3, s3.a.stopping = true ∧
+      (validateExecute "quit" props s).2 =
+        (armTop s.nextId (await (exec 99999) (.arbStopWatchers ws true) .quitAfterStop (.top s.nextId) s3).2).2 := by
   rw [quit_accepted props s h1 h2]
   refine ⟨⟨_, rfl⟩, ?_⟩
-  have S := SpecCore.ofLeafY (arbPLeafX _ stoppingStable).toLeafY
-  apply S.armTop
-  show ArbP (fun a => a.stopping = true) _
   generalize hs2 : (newTop [TopCb.release] (setSlot (some "arbiter_stop") s).2).2 = s2
   have hb2 : s2.blocked = false := by rw [← hs2]; exact hb
   have hfd : fuelDefault = 99999 + 1 := rfl
+  refine ⟨(iterWatchers false (setStopping s2).2).1, (iterWatchers false (setStopping s2).2).2, rfl, ?_⟩
   rw [hfd, exec.eq_2]
   simp only [bind, getS]
   erw [if_neg (by simp [hb2])]
-  simp only [runCall]
-  unfold arbStop
-  simp only [bind]
-  apply await_pres S (exec 99999) (exec_pres S 99999)
   rfl
+
+example : (initState [{ name := "a" }] [{}] 0).a.slot = none ∧ (initState [{ name := "a" }] [{}] 0).a.restarting = false ∧
+    (initState [{ name := "a" }] [{}] 0).blocked = false := by decide +kernel
 
 /-- **no respawn during or after shutdown**: with `stopping` set the periodic `manage_watchers`
     returns at once — no reaping, no `manage_processes`, hence no spawn. -/
@@ -303,7 +360,7 @@ theorem C08_close_is_idempotent (s : State) (h1 : s.a.ctlClosed = true) (h2 : s.
     simp_all
 
 theorem closedStable : ArbStable (fun a => a.ctlClosed = true ∧ a.pubClosed = true) :=
-  ⟨⟨fun _ h => h, fun _ h => h, fun _ _ h => h, fun _ _ h => h, fun _ _ h => h, fun _ _ _ h => h, fun _ _ h => h⟩, fun _ _ => ⟨rfl, rfl⟩⟩
+  ⟨⟨fun _ h => h, fun _ h => h, fun _ h => h, fun _ _ h => h, fun _ _ h => h, fun _ _ h => h, fun _ _ _ h => h, fun _ _ h => h⟩, fun _ _ => ⟨rfl, rfl⟩⟩
 
 /-- **closed is for ever**: once the control and PUB sockets are closed they stay closed along every
     continuation of the run. -/
